@@ -4,7 +4,7 @@ From Coq Require Import List Bool NArith ZArith String.
 From Coq Require Import Init.Byte.
 Import ListNotations.
 From FR Require Import Bytes Msgpack Msgpack_proofs Packer Stream Observe Gen_packer
-                       Packer_proofs Values_proofs Stream_proofs Roundtrip_proofs.
+                       Packer_proofs Values_proofs Stream_proofs Roundtrip_proofs Append_proofs.
 Open Scope Z_scope.
 
 (* the generated constants make a sane configuration (ext type fits a byte, sub-types distinct, magic short) *)
@@ -27,6 +27,26 @@ Theorem C01_stream_roundtrip : forall (HASH : desc -> Z) (depth : nat) (items : 
   stream_okb the_cfg HASH depth [] items = true ->
   read_stream the_cfg HASH depth (write_stream the_cfg HASH items) = Read (map RItem items) CleanEOF.
 Proof. intros. apply stream_roundtrip; [exact C01_generated_cfg_good|assumption]. Qed.
+
+(* APPENDED STREAMS: several complete streams one after the other in one file (cat a.records b.records; a second writer
+   appending to the file a first one left) read back as the concatenation of their records, in order, with a clean end:
+   the later headers are skipped, repeated or changed definitions are taken as they come, and the records of a later
+   part decode as they would on that part alone (decoding is monotone in the registry). *)
+Lemma C01_header_ok : forall depth, (0 < depth)%nat -> body_ok the_cfg depth (XBin (MAGIC the_cfg)) = true.
+Proof.
+  intros depth Hd. unfold body_ok.
+  assert (E : (xv_ok the_cfg (XBin (MAGIC the_cfg)) && mv_wf (lower the_cfg (XBin (MAGIC the_cfg))) &&
+               (blen (enc (lower the_cfg (XBin (MAGIC the_cfg)))) <? 2 ^ 32)%N) = true) by (vm_compute; reflexivity).
+  rewrite E. cbn [andb xdepth]. apply Nat.ltb_lt. exact Hd.
+Qed.
+Theorem C01_appended_streams : forall (HASH : desc -> Z) (depth : nat) (parts : list (list item)),
+  parts <> [] -> (0 < depth)%nat ->
+  Forall (fun items => stream_okb the_cfg HASH depth [] items = true) parts ->
+  read_stream the_cfg HASH depth (List.concat (map (write_stream the_cfg HASH) parts)) = Read (map RItem (List.concat parts)) CleanEOF.
+Proof.
+  intros HASH depth parts Hne Hd Hall.
+  exact (appended_roundtrip the_cfg HASH depth (C01_header_ok depth Hd) parts C01_generated_cfg_good Hne Hall).
+Qed.
 
 (* per value: every typed field value survives pack -> unpack under its declared type *)
 Theorem C01_field_roundtrip : forall (HASH : desc -> Z) v reg t dp,
@@ -53,6 +73,18 @@ Proof. vm_compute. reflexivity. Qed.
 Example C01_sample_reads_back :
   read_stream the_cfg toy_hash 12 (write_stream the_cfg toy_hash sample_items) = Read (map RItem sample_items) CleanEOF.
 Proof. exact (C01_stream_roundtrip toy_hash 12 sample_items C01_hypotheses_satisfiable). Qed.
+
+(* the sample sequence, an empty stream and the sample again, one after the other in one file *)
+Example C01_appended_sample_reads_back :
+  read_stream the_cfg toy_hash 12 (List.concat (map (write_stream the_cfg toy_hash) [sample_items; []; sample_items]))
+  = Read (map RItem (sample_items ++ sample_items)) CleanEOF.
+Proof.
+  rewrite (C01_appended_streams toy_hash 12 [sample_items; []; sample_items]).
+  - cbn [List.concat app]. rewrite app_nil_r. reflexivity.
+  - discriminate.
+  - apply Nat.lt_0_succ.
+  - repeat constructor; try exact C01_hypotheses_satisfiable.
+Qed.
 
 (* ---- statements that are FALSE of the faithful model (known findings; replayed on the implementation) ---- *)
 (* a record whose _version was assigned another value comes back with the current version *)
